@@ -43,17 +43,30 @@ def run(ctx):
                                           tag=tag + "f", extra_overlay=frr_overlay(ctx))
         cs = take(recs, okrun, log, "TestVerifDeb")
         # real sessionManager -> real debouncer -> real generateAndReloadConfigFile -> scripted reload signal
-        recs, okrun, log = ctx.go_harness(FRR_PKG, ["zz_verif_debmgr_test.go", "zz_verif_debreloader_test.go", "zz_verif_deb_test.go", "zz_verif_gen_test.go"],
-                                          "TestVerifDeb(Mgr|Reloader)$",
+        recs, okrun, log = ctx.go_harness(FRR_PKG, ["zz_verif_debmgr_test.go", "zz_verif_debmgrreal_test.go", "zz_verif_debreloader_test.go", "zz_verif_deb_test.go", "zz_verif_gen_test.go"],
+                                          "TestVerifDeb(Mgr|MgrReal|Reloader)$",
                                           n=(10 if quick else 80), seed=seed, tag=tag + "m", extra_overlay=frr_overlay(ctx))
         take(recs, okrun, log, "TestVerifDebMgr/TestVerifDebReloader")
         recs, okrun, log = ctx.go_harness("internal/k8s/controllers", ["zz_verif_deb_test.go"], "TestVerifKDeb$", n=nk,
                                           seed=seed, tag=tag + "k")
         cs += take(recs, okrun, log, "TestVerifKDeb")
         # UpdateConfig -> debouncer -> late / busy consumer -> real Reconcile against a fake API server
-        recs, okrun, log = ctx.go_harness("internal/k8s/controllers", ["zz_verif_deb_test.go"], "TestVerifKDeliver$",
-                                          n=(24 if quick else 200), seed=seed, tag=tag + "d")
-        take(recs, okrun, log, "TestVerifKDeliver")
+        # ... and the same path fed by the REAL frr-k8s session manager (info and debug level, plain-text passwords, a
+        # steady stream of Sets): harness/internal/k8s/controllers/zz_verif_k8srec_test.go TestVerifK8sRecDeliver, which
+        # needs the shared session generator and projection (package clause rewritten, as in props/C15.py)
+        import os
+        ov = {}
+        gdir = os.path.join(os.path.dirname(os.path.abspath(__file__)), "..", "harness", "internal", "bgp")
+        for src, name in ((os.path.join(gdir, "frr", "zz_verif_gen_test.go"), "zz_verif_gen_test.go"),
+                          (os.path.join(gdir, "frrk8s", "zz_verif_kproj_test.go"), "zz_verif_kproj_test.go")):
+            txt = open(src).read().replace("\npackage frr\n", "\npackage controllers\n", 1)
+            dst = os.path.join(ctx.work, "ctl19_" + name)
+            open(dst, "w").write(txt)
+            ov["internal/k8s/controllers/" + name] = dst
+        recs, okrun, log = ctx.go_harness("internal/k8s/controllers", ["zz_verif_deb_test.go", "zz_verif_k8srec_test.go"],
+                                          "TestVerif(KDeliver|K8sRecDeliver)$",
+                                          n=(24 if quick else 200), seed=seed, tag=tag + "d", extra_overlay=ov)
+        take(recs, okrun, log, "TestVerifKDeliver/TestVerifK8sRecDeliver")
         return cs
 
     cases = harness(n_frr, n_k8s, ctx.seed, "h")
@@ -69,7 +82,7 @@ def run(ctx):
     if cases and not ctx.corr_broken and not ctx.violations:
         for k in ("failed_calls", "reapply_events", "traces_with_coalescing", "burst_checked", "ktraces_with_coalescing",
                   "real_body_scenarios", "real_reload_signal_failures",
-                  "deliver_schedules", "deliver_ends_with_shrink", "deliver_consumer_starts_after_first_timer", "deliver_applied_config_resubmitted_while_other_pending", "stream_scenarios", "stream_submissions_while_retry_pending", "reloader_rounds", "mgr_histories", "mgr_stepwise_histories", "mgr_bfd_syncs_same_size", "mgr_reload_signal_failures"):
+                  "deliver_schedules", "deliver_ends_with_shrink", "deliver_consumer_starts_after_first_timer", "deliver_applied_config_resubmitted_while_other_pending", "stream_scenarios", "stream_submissions_while_retry_pending", "kstream_scenarios", "mgrreal_rounds", "mgrreal_reload_in_progress_failed", "deliver_runs", "deliver_stream_runs", "deliver_debug_level_with_password", "reloader_rounds", "mgr_histories", "mgr_stepwise_histories", "mgr_bfd_syncs_same_size", "mgr_reload_signal_failures"):
             if st.get(k, 0) == 0:
                 raise Exception("generator degenerate: counter %s is zero: %r" % (k, st))
 
